@@ -2,9 +2,11 @@
 
 import io
 import json
+import re
 
 from pydiffx.errors import (DiffXContentError,
                             DiffXOptionValueChoiceError,
+                            DiffXOptionValueError,
                             DiffXSectionOrderError)
 from pydiffx.options import (DiffType,
                              LineEndings,
@@ -39,6 +41,9 @@ class DiffXWriter(object):
 
     #: Default encoding to use for the DiffX file.
     DEFAULT_ENCODING = 'utf-8'
+
+    #: The characters allowed in the value of a section header option.
+    _OPTION_VALUE_RE = re.compile(r'[A-Za-z0-9/_.-]+')
 
     _LEVEL_NONE = 0
     _LEVEL_MAIN = 1
@@ -548,6 +553,15 @@ class DiffXWriter(object):
             **options (dict):
                 Additional options to provide in the header.
         """
+        for _key, _value in options.items():
+            if (_value is not None and
+                not self._OPTION_VALUE_RE.fullmatch('%s' % _value)):
+                raise DiffXOptionValueError(
+                    '"%s" is not a valid value for the %s option. Option '
+                    'values may only contain letters, digits, and "/", '
+                    '"_", ".", and "-".'
+                    % (_value, _key))
+
         options_str = ', '.join(
             '%s=%s' % (_key, _value)
             for _key, _value in sorted(options.items(),
